@@ -80,6 +80,9 @@ ldb_compaction_t g_cmpn; ldb_edit_t g_edit;
 size_t g_n0, g_n1;                       /* lengths of inputs[0] (tracked position g_k: g_fk) and inputs[1] (tracked position g_j: g_fj) */
 size_t g_gi0; int g_seen0; int64_t g_ob0; uint64_t g_sum;   /* should_stop_before: state before the call, bytes of the grandparents passed */
 size_t g_del_n, g_delk, g_delj;          /* remove_file calls: all / naming (level, number of g_fk) / naming (level+1, number of g_fj) */
+/* ver2.base: */
+ldb_slice_t g_bq; size_t g_bqr;          /* probe user key and its rank                                             */
+int g_pl; size_t g_lp0;                  /* an arbitrary second level and its pointer before the call               */
 /* ver.boundary.*: */
 ldb_filemeta_t g_fc, g_fcj;              /* compaction-set list: its first-maximum file, an arbitrary second file   */
 const ldb_vector_t *g_cfiles; size_t g_cn, g_ck, g_cj;   /* that list, its length, positions of g_fc / g_fcj           */
